@@ -219,6 +219,12 @@ func init() {
 		},
 		"assume": func(fr *frame, args []value) value { X.Assume(args[0]); return nil },
 		"verify": func(fr *frame, args []value) value { X.Assert(args[0], strOf(args[1])); return nil },
+		"verifyExec": func(fr *frame, args []value) value {
+			X.KindOverride = "exec"
+			defer func() { X.KindOverride = "" }()
+			X.Assert(args[0], strOf(args[1]))
+			return nil
+		},
 		"verifyKF": func(fr *frame, args []value) value {
 			X.AssertKF(args[0], strOf(args[1]), strOf(args[2]), args[3])
 			return nil
@@ -247,6 +253,17 @@ func init() {
 			return mkSym(types.Float64, smt.Ite(c, termOf(args[1], types.Float64), termOf(args[2], types.Float64)))
 		},
 		"setupOnce": extSetupOnce,
+		"frameBegin": func(fr *frame, args []value) value {
+			var allowed []string
+			for _, a := range args[1].([]value) {
+				allowed = append(allowed, strOf(a))
+			}
+			frameBegin(fr.i, args[0], allowed)
+			return nil
+		},
+		"frameEnd":  func(fr *frame, args []value) value { return frameEnd() },
+		"raceBegin": func(fr *frame, args []value) value { raceBegin(fr.i); return nil },
+		"raceEnd":   func(fr *frame, args []value) value { return raceEnd() },
 		"stepCount": func(fr *frame, args []value) value { return int(X.steps) },
 		"drain": func(fr *frame, args []value) value { drainOthers(); return nil },
 		// wide integer specification arithmetic
@@ -432,6 +449,7 @@ func init() {
 		"sync/atomic.AddInt64": func(fr *frame, args []value) value {
 			schedPoint("atomic.AddInt64", args[0])
 			p := args[0].(*value)
+			recordAccess(p, true, true)
 			logStore(p)
 			nv := binop(token.ADD, types.Typ[types.Int64], *p, args[1])
 			*p = nv
